@@ -13,7 +13,8 @@ import (
 // nonEmptySlice: v is a slice with at least one element on every path that
 // reaches its use. Decided on the SSA value: a composite literal with elements,
 // an append with explicit elements, an append one of whose operands is
-// non-empty, or a phi all of whose edges are.
+// non-empty, a phi all of whose edges are, or the result of a function all of
+// whose returns are.
 func nonEmptySlice(v ssa.Value, seen map[ssa.Value]bool) bool {
 	v = core.Strip(v)
 	if seen[v] {
@@ -37,6 +38,11 @@ func nonEmptySlice(v ssa.Value, seen map[ssa.Value]bool) bool {
 		if b, ok := x.Call.Value.(*ssa.Builtin); ok && b.Name() == "append" && len(x.Call.Args) == 2 {
 			return nonEmptySlice(x.Call.Args[1], seen) || nonEmptySlice(x.Call.Args[0], seen)
 		}
+		return nonEmptyResult(x, 0, seen)
+	case *ssa.Extract:
+		if call, ok := x.Tuple.(*ssa.Call); ok {
+			return nonEmptyResult(call, x.Index, seen)
+		}
 		return false
 	case *ssa.Phi:
 		for _, e := range x.Edges {
@@ -47,6 +53,77 @@ func nonEmptySlice(v ssa.Value, seen map[ssa.Value]bool) bool {
 		return len(x.Edges) > 0
 	}
 	return false
+}
+
+// nonEmptyResult: result idx of a call to a function with a body is non-empty
+// if every return of the callee returns a non-empty slice there; a parameter
+// returned as it is stands for the caller's argument.
+func nonEmptyResult(call *ssa.Call, idx int, seen map[ssa.Value]bool) bool {
+	callee := call.Call.StaticCallee()
+	if callee == nil || callee.Blocks == nil || len(seen) > 200 {
+		return false
+	}
+	all, any := true, false
+	core.EachInstr(callee, func(ins ssa.Instruction) {
+		ret, ok := ins.(*ssa.Return)
+		if !ok || idx >= len(ret.Results) {
+			return
+		}
+		rv := core.Strip(ret.Results[idx])
+		// an error return hands back nil together with a non-nil error: such a
+		// result is not used by a caller that checks the error
+		if cst, ok := rv.(*ssa.Const); ok && cst.Value == nil && len(ret.Results) > 1 {
+			return
+		}
+		any = true
+		if prm, ok := rv.(*ssa.Parameter); ok {
+			for i, q := range callee.Params {
+				if q == prm && i < len(call.Call.Args) {
+					if !nonEmptySlice(call.Call.Args[i], seen) {
+						all = false
+					}
+					return
+				}
+			}
+		}
+		if !nonEmptyIn(rv, call, callee, seen) {
+			all = false
+		}
+	})
+	return all && any
+}
+
+// nonEmptyIn judges a value of the callee's frame; parameters reached through
+// appends and phis are replaced by the caller's arguments.
+func nonEmptyIn(v ssa.Value, call *ssa.Call, callee *ssa.Function, seen map[ssa.Value]bool) bool {
+	v = core.Strip(v)
+	if prm, ok := v.(*ssa.Parameter); ok {
+		for i, q := range callee.Params {
+			if q == prm && i < len(call.Call.Args) {
+				return nonEmptySlice(call.Call.Args[i], seen)
+			}
+		}
+		return false
+	}
+	if seen[v] {
+		return true
+	}
+	switch x := v.(type) {
+	case *ssa.Call:
+		if b, ok := x.Call.Value.(*ssa.Builtin); ok && b.Name() == "append" && len(x.Call.Args) == 2 {
+			seen[v] = true
+			return nonEmptyIn(x.Call.Args[1], call, callee, seen) || nonEmptyIn(x.Call.Args[0], call, callee, seen)
+		}
+	case *ssa.Phi:
+		seen[v] = true
+		for _, e := range x.Edges {
+			if !nonEmptyIn(e, call, callee, seen) {
+				return false
+			}
+		}
+		return len(x.Edges) > 0
+	}
+	return nonEmptySlice(v, seen)
 }
 
 // RuleKTxNonempty — an importer never hands the journal a transaction without
